@@ -118,6 +118,7 @@ def main(argv):
     ap.add_argument('--replay')
     ap.add_argument('--shards', type=int, default=None)
     ap.add_argument('--keep', action='store_true')
+    ap.add_argument('--no-evidence', action='store_true', help='self-test runs: do not touch evidence/ or replays/')
     a = ap.parse_args(argv)
     pid = a.pid.upper()
     seed = int(os.environ.get('VERIF_SEED', '1') or 1)
@@ -190,7 +191,7 @@ def main(argv):
         f = match_finding(findings, pid, sig)
         h = hashlib.sha1(canonical(v.get('case')).encode()).hexdigest()[:10]
         safe = ''.join(c if c.isalnum() or c in '-_.' else '_' for c in sig)[:80]
-        rdir = os.path.join(ROOT, 'replays', pid)
+        rdir = os.path.join(ROOT, 'replays', pid) if not a.no_evidence else os.path.join(scratch_base, 'replays', pid)
         os.makedirs(rdir, exist_ok=True)
         rpath = os.path.join(rdir, '%s-%s.json' % (safe, h))
         with open(rpath, 'w') as fh:
@@ -239,10 +240,11 @@ def main(argv):
         'wall_s': round(time.time() - t0, 2),
         'violations': n_viol,
     }
-    os.makedirs(os.path.join(ROOT, 'evidence'), exist_ok=True)
-    with open(os.path.join(ROOT, 'evidence', pid + '.json'), 'w') as fh:
-        json.dump(ev, fh, indent=1, default=str)
-        fh.write('\n')
+    if not a.no_evidence:
+        os.makedirs(os.path.join(ROOT, 'evidence'), exist_ok=True)
+        with open(os.path.join(ROOT, 'evidence', pid + '.json'), 'w') as fh:
+            json.dump(ev, fh, indent=1, default=str)
+            fh.write('\n')
     for l in lines:
         print(l)
     for e in errors:
